@@ -157,15 +157,15 @@ func (s *SwitchPool) GetByID(ctx context.Context, client client.VPC, id string) 
 				IPv4CIDR:         resp.CidrBlock,
 				IPv6CIDR:         resp.Ipv6CidrBlock,
 			}
+			// cache the answer once, here: callers that merely shared this lookup must not
+			// store it again later, that would undo a Block issued in the meantime
+			s.cache.Add(sw.ID, sw, s.ttl)
 			return sw, nil
 		})
 		if err != nil {
 			return nil, err
 		}
-		vsw := v.(*Switch)
-		s.cache.Add(vsw.ID, vsw, s.ttl)
-
-		return vsw, nil
+		return v.(*Switch), nil
 	}
 	sw := v.(*Switch)
 	return sw, nil
